@@ -20,6 +20,8 @@ import (
 	"math"
 	"os"
 	"slices"
+	"sync/atomic"
+	"time"
 
 	"github.com/bufbuild/protocompile/internal/interval"
 )
@@ -80,6 +82,8 @@ var (
 	traceEnc   *json.Encoder
 	traceCount int64
 	classCount = map[string]int64{}
+	progress   atomic.Int64
+	current    atomic.Pointer[tcase]
 	capPer     = 200
 )
 
@@ -108,6 +112,24 @@ func main() {
 		traceEnc = json.NewEncoder(w)
 	}
 
+	// a case that makes no progress for 30 s is reported as a hang of the real code
+	go func() {
+		last := int64(-1)
+		for {
+			time.Sleep(30 * time.Second)
+			p := progress.Load()
+			if p == last {
+				if c := current.Load(); c != nil {
+					_ = enc.Encode(mismatch{Class: "interval:hang", Hist: c.Hist, Step: 0, Variant: "?", Detail: "no progress for 30 s"})
+				}
+				_ = enc.Encode(map[string]any{"stats": map[string]any{"aborted": true}})
+				out.Flush()
+				os.Exit(0)
+			}
+			last = p
+		}
+	}()
+
 	var n int64
 	for in.Scan() {
 		var c tcase
@@ -125,6 +147,8 @@ func main() {
 			last.Get[c.Hist[len(c.Hist)-1][0]+1] = append([]int64{99}, last.Get[c.Hist[len(c.Hist)-1][0]+1]...)
 		}
 		n++
+		current.Store(&c)
+		progress.Add(1)
 		// identity concretisation always, one seeded other
 		runVariant(&c, variants(c.MaxP)[0], traceEnc != nil && n%*traceMod == *traceRem%*traceMod)
 		vs := variants(c.MaxP)
@@ -400,7 +424,7 @@ func pointwiseEqual(a, b []real) bool {
 	flat := func(es []real) map[int64]string {
 		m := map[int64]string{}
 		for _, e := range es {
-			if e.E-e.S > 1<<16 {
+			if e.E < e.S || uint64(e.E)-uint64(e.S) > 1<<16 { // width computed without overflow
 				return nil
 			}
 			for p := e.S; ; p++ {
